@@ -38,7 +38,8 @@ theorem hasCur_setCurBuf (s : AState) (b : ABuf) (h : s.HasCur) : (s.setCurBuf b
     left unread is exactly the input the token was matched on: every byte is consumed once and
     in order, and the trailing context stays unread. -/
 theorem match_conserves (M : Matcher) (cfg : Cfg) (s : AState) (inp : List UInt8) (len rule : Nat)
-    (p : List UInt8) (h : s.HasCur) :
+    (p : List UInt8) (h : s.HasCur)
+    (hfit : (cfg.yylmax != 0 && decide (p.length + len ≥ cfg.yylmax)) = false) :
     let s' := beginMatch M cfg s inp len rule p
     s'.text = p ++ inp.take (M.headLen rule len inp) ∧ unread s' = inp.drop (M.headLen rule len inp) ∧
       s'.text.drop p.length ++ unread s' = inp := by
@@ -49,10 +50,10 @@ theorem match_conserves (M : Matcher) (cfg : Cfg) (s : AState) (inp : List UInt8
       AState.HasCur { t with text := x, morePrefix := y, textValid := z } :=
     fun _ _ _ _ ⟨i, hi, hlt⟩ => ⟨i, hi, hlt⟩
   have key : unread (beginMatch M cfg s inp len rule p) = inp.drop (M.headLen rule len inp) := by
-    simp only [beginMatch]
+    simp only [beginMatch, hfit, Bool.false_eq_true, if_false]
     rw [e, unread_addLineno cfg _ _ (hc _ _ _ _ (hasCur_setCurBuf s _ h)), e2, unread_setCurBuf s _ h]
   have ht : (beginMatch M cfg s inp len rule p).text = p ++ inp.take (M.headLen rule len inp) := by
-    simp [beginMatch, AState.emit]
+    simp [beginMatch, AState.emit, hfit]
   refine ⟨ht, key, ?_⟩
   rw [key, ht]
   simp
